@@ -278,7 +278,7 @@ pub(crate) fn sign_internal<
         let r0_norm = infinity_norm(&r0);
         // CTEST is used only for constant-time measurements via `dudect`
         if !CTEST && ((z_norm >= (gamma1 - beta)) || (r0_norm >= (gamma2 - beta))) {
-            kappa_ctr += u16::try_from(L).expect("cannot fail; L is static parameter");
+            kappa_ctr = kappa_ctr.wrapping_add(u16::try_from(L).expect("cannot fail; L is static parameter"));
             continue;
             //
             // 24: else  ... not needed with 'continue'
@@ -313,7 +313,7 @@ pub(crate) fn sign_internal<
             && ((infinity_norm(&c_t_0) >= gamma2)
                 || (h.iter().map(|h_i| h_i.0.iter().sum::<i32>()).sum::<i32>() > omega))
         {
-            kappa_ctr += u16::try_from(L).expect("cannot fail; L is static parameter");
+            kappa_ctr = kappa_ctr.wrapping_add(u16::try_from(L).expect("cannot fail; L is static parameter"));
             continue;
             // 29: end if
         }
